@@ -273,3 +273,206 @@ def crash_resume(args):
 
 def ping(args):
     return {"pong": True, "hashseed": os.environ.get("PYTHONHASHSEED"), "h": hash("abc")}
+
+
+# ---------------------------------------------------------------------------------------------------------------
+# shared-cache sessions (C20 concurrent actors, C12 cache histories)
+def _db_digest(dbpath):
+    """order-independent digest of the features of a gffutils database"""
+    import gffutils
+    h = hashlib.sha256()
+    db = gffutils.FeatureDB(dbpath)
+    rows = []
+    for f in db.all_features():
+        rows.append("%s|%s|%s|%d|%d|%s|%s" % (f.id, f.seqid, f.featuretype, f.start, f.end, f.strand,
+                                               sorted((k, tuple(v)) for k, v in f.attributes.items())))
+    for r in sorted(rows):
+        h.update(r.encode())
+    return "%d:%s" % (len(rows), h.hexdigest()[:20])
+
+
+_fresh_cache = {}
+
+
+def _fresh_digest(gtf_path, complete, scratch):
+    """digest of a fresh conversion of the current annotation with the given flag (harness-side, real gffutils)"""
+    import gffutils
+    with open(gtf_path, "rb") as f:
+        key = (hashlib.sha256(f.read()).hexdigest(), bool(complete))
+    if key not in _fresh_cache:
+        tmp = os.path.join(scratch, "_fresh_%d.db" % len(_fresh_cache))
+        import warnings
+        with warnings.catch_warnings():
+            warnings.simplefilter("ignore")
+            gffutils.create_db(gtf_path, tmp, force=True, keep_order=True, merge_strategy='error',
+                               sort_attribute_values=True, disable_infer_transcripts=complete,
+                               disable_infer_genes=complete)
+        _fresh_cache[key] = _db_digest(tmp)
+        os.remove(tmp)
+    return _fresh_cache[key]
+
+
+def cache_session(args):
+    """args: workloads [{spec, gz}], steps [ {"run": [actor, ...]} | {"op": ..., ...} ], sched (for concurrent steps)
+    actor: {"wl": j, "opts": {...}, "out": "A"}"""
+    import re
+    t0 = time.time()
+    rundir = new_rundir("s")
+    try:
+        home = os.path.join(rundir, "home")
+        wls = []
+        dirs = []
+        for j, w in enumerate(args["workloads"]):
+            indir = os.path.join(rundir, "in%d" % j)
+            if w.get("same_basename_dir"):
+                indir = os.path.join(rundir, "in%d" % j, "data")
+            truth, paths = workload.build(w["spec"], indir, gtf_gz=True)
+            if not args.get("cold_fai"):
+                import pyfaidx
+                pyfaidx.Faidx(paths["fasta"]).close()
+            wls.append((truth, paths, indir))
+            dirs.append((indir, "<in%d>" % j))
+        mtimes = {}
+        clock = [1_000_000_000]
+        out = {"steps": [], "events": 0}
+        outs = {}
+        traces = []
+        all_picks = []
+        probes = {}
+        reading_truncated = [0]
+
+        def on_event(hub, a, m, seq):
+            k, p = m["k"], m["p"]
+            st = hub.__dict__.setdefault("_wopen", {})
+            if k == "open:w":
+                st[p] = a.slot
+            elif k == "write" and st.get(p) == a.slot:
+                st.pop(p, None)
+            elif k == "open:r" and p in st and st[p] != a.slot:
+                hub.probe("cache_file_read_while_peer_holds_it_truncated")
+            w = hub.__dict__.setdefault("_dbw", {})
+            if k == "sqlite-connect" and not m.get("new"):
+                if p in w and w[p] != a.slot:
+                    hub.probe("db_opened_while_peer_is_rebuilding_it")
+            if (k == "sqlite-connect" and m.get("new")) or (k == "remove" and p.endswith(".db")):
+                w[p] = a.slot
+            if k == "getmtime" and w.get(p) == a.slot:
+                w.pop(p, None)      # the converter reads the mtime of the finished database
+            if k == "getmtime" and p.endswith(".db") and p in w and w[p] != a.slot:
+                hub.probe("db_mtime_checked_while_peer_is_rebuilding_it")
+
+        for si, step in enumerate(args["steps"]):
+            if "op" in step:
+                op = step["op"]
+                truth, paths, indir = wls[step.get("wl", 0)]
+                if op == "edit_gtf":
+                    # content change: drop the last transcript of the annotation (keeps it valid)
+                    with open(paths["gtf"]) as f:
+                        lines = f.readlines()
+                    tids = re.findall(r'transcript_id "([^"]+)"', "".join(lines))
+                    victim = tids[-1] if tids else None
+                    keep = [l for l in lines if victim is None or ('transcript_id "%s"' % victim) not in l]
+                    with open(paths["gtf"], "w") as f:
+                        f.writelines(keep)
+                    import gzip as _gz
+                    with open(paths["gtf_gz"], "wb") as raw:
+                        with _gz.GzipFile(fileobj=raw, mode="wb", mtime=0) as f:
+                            f.write("".join(keep).encode())
+                    clock[0] = int(max([clock[0]] + [int(v) for v in mtimes.values()])) + 1
+                    mtimes[paths["gtf"]] = float(clock[0])
+                    mtimes[paths["gtf_gz"]] = float(clock[0])
+                elif op == "touch_gtf":
+                    clock[0] = int(max([clock[0]] + [int(v) for v in mtimes.values()])) + 1
+                    mtimes[paths["gtf"]] = float(clock[0])
+                elif op == "delete_db":
+                    d = outs.get(step.get("out"))
+                    if d:
+                        for fn in os.listdir(d):
+                            if fn.endswith(".db"):
+                                os.remove(os.path.join(d, fn))
+                                mtimes.pop(os.path.join(d, fn), None)
+                elif op == "wipe_cache":
+                    shutil.rmtree(os.path.join(home, ".config"), ignore_errors=True)
+                out["steps"].append({"op": op})
+                continue
+            actors = []
+            meta = []
+            for ai, a in enumerate(step["run"]):
+                truth, paths, indir = wls[a["wl"]]
+                outdir = os.path.join(rundir, "out_" + a["out"])
+                outs[a["out"]] = outdir
+                o = dict(a.get("opts") or {})
+                o["threads"] = 1
+                p2 = dict(paths)
+                if o.get("gtf_repr") == "db":
+                    # pre-built database supplied by the user: converted by the harness with real gffutils
+                    dbp = os.path.join(indir, "genes_prebuilt%s.db" % ("_c" if o.get("complete_genedb") else ""))
+                    if not os.path.exists(dbp):
+                        import gffutils, warnings
+                        with warnings.catch_warnings():
+                            warnings.simplefilter("ignore")
+                            gffutils.create_db(paths["gtf"], dbp, force=True, keep_order=True, merge_strategy='error',
+                                               sort_attribute_values=True,
+                                               disable_infer_transcripts=bool(o.get("complete_genedb")),
+                                               disable_infer_genes=bool(o.get("complete_genedb")))
+                    p2["db"] = dbp
+                argv, prefixes = make_argv(truth, p2, o, outdir, indir)
+                actors.append({"argv": argv, "log": "step%d_%s.log" % (si, a["out"])})
+                meta.append((a, truth, paths, outdir, o, prefixes))
+                if (outdir, "<out_%s>" % a["out"]) not in dirs:
+                    dirs.append((outdir, "<out_%s>" % a["out"]))
+            sched = step.get("sched") or args.get("sched")
+            r = simrun.sim_multi(actors, rundir, home, sched=sched, mtimes=mtimes, dirs=dirs, on_event=on_event)
+            clock[0] = max([clock[0]] + [int(v) for v in mtimes.values()]) + 1
+            traces.append(r["trace"])
+            all_picks.append(r["picks"])
+            for k, v in r["probes"].items():
+                probes[k] = probes.get(k, 0) + v
+            out["events"] += r["events"]
+            sres = {"actors": [], "harness_error": r["harness_error"]}
+            for ai, (a, truth, paths, outdir, o, prefixes) in enumerate(meta):
+                chroms = [c for c, _ in truth["chroms"]]
+                files, residue = outputs.collect(outdir, chroms)
+                log = ""
+                try:
+                    with open(os.path.join(rundir, actors[ai]["log"]), "r", errors="replace") as f:
+                        log = f.read()
+                except OSError:
+                    pass
+                used = re.findall(r"Loading gene database from (\S+)", log)
+                code = r["exit_codes"].get(ai)
+                ar = {"out": a["out"], "exit": code, "digests": outputs.digests(files), "db_used": used[-1] if used else None}
+                if code != 0:
+                    ar["failure_site"] = failure_site(log)
+                    keep = [l for l in log.split("\n") if " - INFO - " not in l]
+                    ar["log_tail"] = "\n".join(keep[-14:])[-1500:]
+                if used and os.path.exists(used[-1]) and o.get("gtf_repr") != "db" and o.get("annotated", True):
+                    try:
+                        ar["db_digest"] = _db_digest(used[-1])
+                    except Exception as e:
+                        ar["db_digest"] = "unreadable:%s" % type(e).__name__
+                    ar["fresh_digest"] = _fresh_digest(paths["gtf"], bool(o.get("complete_genedb")), rundir)
+                    ar["db_foreign"] = not used[-1].startswith(outdir)
+                sres["actors"].append(ar)
+            # cache files well-formed at the end of the step
+            cfgdir = os.path.join(home, ".config", "IsoQuant")
+            bad = []
+            if os.path.isdir(cfgdir):
+                for fn in sorted(os.listdir(cfgdir)):
+                    try:
+                        with open(os.path.join(cfgdir, fn)) as f:
+                            json.load(f)
+                    except Exception as e:
+                        bad.append("%s: %s" % (fn, type(e).__name__))
+            sres["cache_malformed"] = bad
+            out["steps"].append(sres)
+        out["trace_sha"] = simrun.trace_digest(traces)
+        out["picks"] = all_picks
+        out["probes"] = probes
+        out["wall"] = time.time() - t0
+        if "trace" in (args.get("want") or ()):
+            out["trace"] = traces
+        return out
+    finally:
+        if not args.get("keep"):
+            shutil.rmtree(rundir, ignore_errors=True)
